@@ -328,6 +328,17 @@ class SigWorld(object):
                     sig = key.revoke(key, **kw)
                 elif kind == 'revoker':
                     sig = key.revoker(tgt.pubkey, **{k: v for k, v in kw.items() if k != 'revocable'})
+                elif kind == 'direct_self' and st.get('uid_index') == 2 and len(key.subkeys):
+                    # a signature directly on a key (0x1F) whose subject is one of the key's subkeys: computed over that key alone
+                    subs = list(key.subkeys.values())
+                    sub = subs[st.get('sub_index', 0) % len(subs)]
+                    sig = key.certify(sub, **{k: v for k, v in kw.items() if k in ('hash', 'created', 'notation', 'policy_uri', 'expires',
+                                                                                    'revocable', 'include_issuer_fingerprint')})
+                    self.ctx.probe('direct_signature_over_subkey')
+                    art.subject = {'t': 'subkey_alone', 'keybytes': bytes(key.pubkey), 'subfp': bytes.fromhex(str(sub.fingerprint))}
+                    art.sig = bytes(sig)
+                    art.verifier = bytes(key.pubkey)
+                    return art
                 else:
                     sig = key.certify(owner.pubkey if kind == 'direct_other' else owner, **kw)
                 art.subject = {'t': 'key', 'keybytes': bytes(owner.pubkey)}
@@ -353,14 +364,14 @@ class SigWorld(object):
         return art
 
     # ------------------------------------------------------------------
-    def pgpy_verify(self, art, copies=False):
+    def pgpy_verify(self, art, copies=False, verifier=None):
         """Verifier side: everything is re-imported from octets.  Returns the
         SignatureVerification (or raises whatever PGPy raises).  copies: the verifier works on copy.copy()
         of every object it parsed (callers pass objects around; a copy must judge like the original)."""
         import copy as _copy
         pgpy = self.pgpy
         cp = _copy.copy if copies else (lambda x: x)
-        K = cp(pgpy.PGPKey.from_blob(art.verifier)[0])
+        K = verifier if verifier is not None else cp(pgpy.PGPKey.from_blob(art.verifier)[0])
         s = art.subject
         if s['t'] == 'msg':
             return K.verify(cp(pgpy.PGPMessage.from_blob(s['bytes'])))
@@ -373,7 +384,7 @@ class SigWorld(object):
             return K.verify(s['data'].decode('utf-8') if s.get('as_str') else s['data'], sig)
         if s['t'] == 'none':
             return K.verify(None, sig)
-        T = cp(pgpy.PGPKey.from_blob(s['keybytes'])[0])
+        T = cp(pgpy.PGPKey.from_blob(s.get('keybytes_private') or s['keybytes'])[0])
         if s['t'] == 'key':
             return K.verify(T, sig)
         if s['t'] == 'uid':
@@ -382,7 +393,7 @@ class SigWorld(object):
                         (s.get('uid') is None and bytes(u.image) == s['image']):
                     return K.verify(u, sig)
             raise LookupError('uid not found in the presented key')
-        if s['t'] == 'subkey':
+        if s['t'] in ('subkey', 'subkey_alone'):
             for sk in T.subkeys.values():
                 if bytes.fromhex(str(sk.fingerprint)) == s['subfp']:
                     return K.verify(sk, sig)
@@ -455,6 +466,12 @@ def ref_view(art, canonical=False):
                     v.error = 'subkey not in key'
                     return v
                 subj = pre(tk.pub) + pre(comp[0].key)
+            elif s['t'] == 'subkey_alone':
+                comp = [c for c in tk.subkeys if c.key.fingerprint == s['subfp']]
+                if not comp:
+                    v.error = 'subkey not in key'
+                    return v
+                subj = pre(comp[0].key)
             else:
                 raise ValueError(s['t'])
         v.entries.append((sg, signer, subj))
